@@ -55,6 +55,32 @@ CHECKS = {
         "Times on the step (and tick) grid as the quantifier demands; affine fake grid for ll2xy; pandas trusted for parsing.",
         "DESIGN.md §2 C04",
     ),
+    "C12": (
+        "model_checking",
+        "exhaustive parameter lattice on the real s_stretch/sdepth/z2s and on Grid objects; invariant oracle + independent ROMS formulas",
+        "Every (N=1..60, Vstretching, theta_s, theta_b, Vtransform, hc, h) on the lattice and every particle depth of a depth family: strict "
+        "monotonicity inside [-h,0], w/rho interleaving, Cs from -1 to 0, lookup pair in range with weight in [0,1] reproducing the clamped depth; "
+        "Grid built from a file and from Vinfo on variable bathymetry.",
+        "Parameters on the lattice; zeta = 0.",
+        "DESIGN.md §2 C12",
+    ),
+    "C02": (
+        "model_checking",
+        "exhaustive world lattice x all legal subgrids x position/depth lattice on the real Grid+Forcing against a reference interpolator on the global arrays",
+        "Every world (bathymetry, stretching, mask, storage, field) x every legal subgrid x every position of a 0.25 lattice of the valid region x "
+        "depth family: velocity (variables, velocity(), fractional step) and scalar equal the statement-level reference interpolation of the global "
+        "arrays; plus exactness on linear fields and the convexity bound.",
+        "Steady fields; dyadic data so that 1e-12 is exact; both neighbours admitted at exact cell edges / level depths.",
+        "DESIGN.md §2 C02",
+    ),
+    "C03": (
+        "model_checking",
+        "exhaustive enumeration of frame layouts x file compositions x direction on the real Forcing stepped like Model.update; tagged-frame reference",
+        "Every subset of the step slots covering the window (2..4/6 frames, Nsteps<=3/5), every composition into files, forward and reversed, with and "
+        "without a scalar, fractional steps 0, 1/2, 1: velocity = lerp of the bracketing frame tags, scalar = latest frame reached.",
+        "Frames on the model time grid; a global sign under reversal is factored out (C10 decides it).",
+        "DESIGN.md §2 C03",
+    ),
 }
 
 PENDING_REASON = "check not built yet (work in progress, see DESIGN.md §11 build order)"
